@@ -1744,7 +1744,7 @@ func replGenTx(g *gen, w *bufio.Writer, m int) {
 	fmt.Fprintln(w, strings.Join(parts, " "))
 }
 
-var replClassesQuick = []string{"after", "before", "during", "restart", "outage", "refusedtx", "flaps", "stopwrite", "stopstorm", "stopapply", "preflush", "two", "tx1", "prod", "txmulti", "rotate", "onelate", "cleancatchup", "cleanpush", "sustained", "txcut", "bigvalues", "applyfail", "bigvalues"}
+var replClassesQuick = []string{"after", "before", "during", "restart", "outage", "refusedtx", "flaps", "stopwrite", "stopstorm", "stopapply", "preflush", "two", "tx1", "prod", "txmulti", "rotate", "onelate", "cleancatchup", "cleanpush", "sustained", "txcut", "bigvalues", "applyfail", "maxvalue", "bigvalues"}
 var replClassesThorough = append(append([]string{}, replClassesQuick...), "after", "before", "during", "restart", "txmulti", "rotatemem", "txsplit", "mixed")
 
 func genRepl(g *gen, n int, tier string, w *bufio.Writer) {
@@ -1803,9 +1803,6 @@ func genReplCase(g *gen, w *bufio.Writer, class string, big bool) {
 				size = g.pick(32768, 65536, 100000) + g.pick(-1, 0, 1, 4)
 			case 3:
 				size = 1100000 + g.intn(300000)
-				if g.chance(1, 2) {
-					size = 10 * 1024 * 1024 // the largest value the API accepts: it replicates like any other
-				}
 			default:
 				size = 20000 + g.intn(20000)
 			}
@@ -1907,6 +1904,18 @@ func genReplCase(g *gen, w *bufio.Writer, class string, big bool) {
 		k, v = g.replSmallKV()
 		fmt.Fprintln(w, join("clientput", "a", k, v))
 		fmt.Fprintln(w, join("clientput", "a", hx([]byte("client-key")), hx([]byte("c"))))
+	case "maxvalue": // the largest value the API accepts (10 MiB) replicates like any other (alone in its case: the primary's memtable
+		// must not fill up - a background flush replaces the log object: D30)
+		hdr("converge", "")
+		if g.chance(1, 2) {
+			fmt.Fprintln(w, "join a")
+			fmt.Fprintln(w, "idle a 5000")
+		}
+		replGenMixedOps(g, w, 3+g.intn(6), false)
+		fmt.Fprintf(w, "putbig %s %d\n", hx([]byte("maxvalue")), 10*1024*1024)
+		replGenMixedOps(g, w, 2+g.intn(4), false)
+		fmt.Fprintln(w, "join b")
+		fmt.Fprintln(w, "await b")
 	case "refusedtx": // the primary refuses a commit (a value beyond one log record) in the middle of the history: later writes replicate
 		hdr("any", "")
 		if g.chance(1, 2) {
